@@ -105,7 +105,7 @@ var probeCallees = map[string]string{
 	"os.Lstat":    "probe: failure is an answer",
 	"os.Readlink": "probe: failure is an answer",
 	"github.com/Masterminds/semver/v3.NewVersion": "by specification (C14) an unparsable version is used verbatim",
-	"net/mail.ParseAddress":                        "",
+	"net/mail.ParseAddress":                       "",
 }
 
 func isWriteSideMethod(name string) bool {
@@ -284,16 +284,16 @@ func openedReadOnly(v ssa.Value, depth int) bool {
 
 // closer constructors for E2: name -> method that completes the stream
 var closerCtors = map[string]string{
-	"archive/tar.NewWriter":                        "Close",
-	"compress/gzip.NewWriter":                      "Close",
-	"compress/gzip.NewWriterLevel":                 "Close",
-	"github.com/klauspost/pgzip.NewWriter":         "Close",
-	"github.com/klauspost/pgzip.NewWriterLevel":    "Close",
-	"github.com/klauspost/compress/zstd.NewWriter": "Close",
-	"github.com/ulikunitz/xz.NewWriter":            "Close",
-	"github.com/ulikunitz/xz/lzma.NewWriter":       "Close",
-	"bufio.NewWriter":                              "Flush",
-	"bufio.NewWriterSize":                          "Flush",
+	"archive/tar.NewWriter":                                    "Close",
+	"compress/gzip.NewWriter":                                  "Close",
+	"compress/gzip.NewWriterLevel":                             "Close",
+	"github.com/klauspost/pgzip.NewWriter":                     "Close",
+	"github.com/klauspost/pgzip.NewWriterLevel":                "Close",
+	"github.com/klauspost/compress/zstd.NewWriter":             "Close",
+	"github.com/ulikunitz/xz.NewWriter":                        "Close",
+	"github.com/ulikunitz/xz/lzma.NewWriter":                   "Close",
+	"bufio.NewWriter":                                          "Flush",
+	"bufio.NewWriterSize":                                      "Flush",
 	"github.com/ProtonMail/go-crypto/openpgp/clearsign.Encode": "Close",
 	"os.Create":     "Close",
 	"os.CreateTemp": "Close",
